@@ -599,7 +599,7 @@ def r31_horizon(ctx, sc: SimCtx):
             env[('ord', t, sc.bound_t)] = rel
         for e in empt:
             env[('bool', e)] = empty
-        ge = GuardEval(prog, dc.name, env, sc.enums)
+        ge = GuardEval(prog, dc.name, env, sc.enums, subst=local_aliases(fn))
         got = ge.ev(cond)
         want = empty or rel == 'gt' or (rel == 'eq' and not inc)
         ctx.examined()
@@ -721,7 +721,7 @@ def r33_pop_horizon(ctx, sc: SimCtx):
             for e in emptiness_atoms(sc, ci.name, fn):
                 env[('bool', e)] = False
             env[('bool', 'self._run_until_including')] = True
-            ge = GuardEval(prog, ci.name, env, sc.enums)
+            ge = GuardEval(prog, ci.name, env, sc.enums, subst=local_aliases(fn))
             blocked = None
             for (c, br) in g.guard_branches(node):
                 r = ge.ev(c.ast)
